@@ -75,7 +75,7 @@ def gen_case(rng, size="small", allow_stacked=True, allow_multi=True):
             req = None
         else:
             s = []
-            keys = rng.sample(["in", "out", "tmp"], rng.randrange(0, 3))
+            keys = rng.sample(["in", "out", "tmp"], rng.choice([0, 1, 2, 2, 3]))   # often several entries on one mount point
             for k in keys:
                 s.append([k, rng.choice(["/", "/x", "/data"]), rng.choice([1, 2, 3, 5, 8]), [rng.choice(PATHS)], None])
             req = {"c": rng.choice([1, 1, 2, 2, 3, 4]), "m": rng.choice([1, 2, 4, 4, 8]), "s": s}
@@ -98,8 +98,8 @@ def gen_case(rng, size="small", allow_stacked=True, allow_multi=True):
             st = rng.choice(["RUNNING", "RUNNING", "RUNNING", "COMPLETED", "COMPLETED", "COMPLETED", "FAILED", "CANCELLED",
                              "ROLLBACK", "RECOVERY", "FIREABLE" if rng.random() < 0.1 else "COMPLETED"])
             ops.append(["N", j, st, rng.choice([0, 1, 2, 4, 4, "fail"])])
-            if rng.random() < 0.2:
-                ops.append(["N", j, st, rng.choice([0, 2, 4])])       # duplicated notification
+            if rng.random() < (0.35 if st in ("RUNNING", "FIREABLE") else 0.2):
+                ops.append(["N", j, st, rng.choice([0, 2, 4])])       # duplicated notification (also of non-terminal statuses)
     return {"f": "hist", "loop_seed": rng.randrange(1 << 30), "deps": deps, "jobs": jobs, "ops": ops,
             "raw": rng.random() < 0.1, "drain": True}
 
@@ -378,10 +378,10 @@ class SchedDriver:
                     rec["skipped"] = "no allocation"
                 elif job in pending and not pending[job].done() and not raw:
                     rec["skipped"] = "request pending"
-                elif not raw and st == "RUNNING" and cur != "FIREABLE":
-                    rec["skipped"] = "RUNNING only from FIREABLE"
-                elif not raw and st == "FIREABLE":
-                    rec["skipped"] = "FIREABLE only by scheduling"
+                elif not raw and st == "RUNNING" and cur not in ("FIREABLE", "RUNNING"):
+                    rec["skipped"] = "RUNNING only from FIREABLE (or repeated while RUNNING)"
+                elif not raw and st == "FIREABLE" and cur != "FIREABLE":
+                    rec["skipped"] = "FIREABLE only by scheduling (or repeated while FIREABLE)"
                 else:
                     self.usage_q = op[3]
                     t = loop.create_task(sched.notify_status(job, Status[st]))
